@@ -189,6 +189,11 @@ func c16RefDoc(c *fw.Ctx, cte bool) ([]byte, string) {
 	return doc, desc
 }
 
+// c16PlainWriter hides every method of the buffer except Write.
+type c16PlainWriter struct{ w *bytes.Buffer }
+
+func (p c16PlainWriter) Write(b []byte) (int, error) { return p.w.Write(b) }
+
 // c16FinalErrReader returns all of its data in one Read, together with a non-EOF error.
 type c16FinalErrReader struct {
 	data []byte
@@ -311,10 +316,27 @@ func runC16(c *fw.Ctx, idx int) {
 		rl = rules.NewRules(rlRec, c16Clone(cfg))
 	}
 
+	// writerMode (chosen per operation, the same for the reused and the fresh instance): 0 = MarshalToDocument / a bytes.Buffer
+	// (which is also an io.StringWriter); 1 = Marshal into a bytes.Buffer; 2 = Marshal / PrepareToEncode into a writer that
+	// only implements io.Writer (instances that remember what kind of writer they saw last must not mix documents up)
+	writerMode := 0
 	marshalWith := func(mm ce.Marshaler, v interface{}) c16Outcome {
 		var doc []byte
 		var err error
-		p, _ := fw.Guard(func() { doc, err = mm.MarshalToDocument(v) })
+		p, _ := fw.Guard(func() {
+			switch writerMode {
+			case 1:
+				var buf bytes.Buffer
+				err = mm.Marshal(v, &buf)
+				doc = buf.Bytes()
+			case 2:
+				var buf bytes.Buffer
+				err = mm.Marshal(v, c16PlainWriter{&buf})
+				doc = buf.Bytes()
+			default:
+				doc, err = mm.MarshalToDocument(v)
+			}
+		})
 		o := c16Outcome{Out: docString(doc, cte)}
 		if p != nil {
 			o.Err = "ESCAPED PANIC: " + fmt.Sprint(p)
@@ -370,7 +392,11 @@ func runC16(c *fw.Ctx, idx int) {
 	}
 	encodeWith := func(e ce.Encoder, log []ev.Event) c16Outcome {
 		var buf bytes.Buffer
-		e.PrepareToEncode(&buf)
+		if writerMode == 2 {
+			e.PrepareToEncode(c16PlainWriter{&buf})
+		} else {
+			e.PrepareToEncode(&buf)
+		}
 		fi, p := ev.Replay(e, log)
 		o := c16Outcome{Out: docString(buf.Bytes(), cte)}
 		if fi >= 0 {
@@ -433,6 +459,8 @@ func runC16(c *fw.Ctx, idx int) {
 			if idx < 12 && i < 2 {
 				v, d, unsupported = make(chan int), "unsupported-chan", true // the same unsupported type twice
 			}
+			writerMode = c.Rng.Intn(3)
+			d = fmt.Sprintf("writer%d-%s", writerMode, d)
 			desc = d
 			c.Note("C16 marshaler %s op%d %s %s", codec, i, d, short(gen.Render(v), 300))
 			reused = marshalWith(m, v)
@@ -495,11 +523,15 @@ func runC16(c *fw.Ctx, idx int) {
 					desc = "corrupted-" + desc
 				}
 			}
+			if kind == 2 {
+				writerMode = []int{0, 2}[c.Rng.Intn(2)]
+				desc = fmt.Sprintf("writer%d-%s", writerMode, desc)
+			}
 			c.Note("C16 %s %s op%d %s %s", kindName, codec, i, desc, short(ev.LogString(log), 1500))
 			if kind == 2 {
 				reused = encodeWith(enc, log)
 				fresh = encodeWith(newEncoder(), log)
-				if strings.HasPrefix(desc, "corrupted-") || (kind == 2 && (strings.Contains(desc, "dangling") || strings.Contains(desc, "duplicate") || strings.Contains(desc, "wrong-count"))) {
+				if strings.Contains(desc, "corrupted-") || (kind == 2 && (strings.Contains(desc, "dangling") || strings.Contains(desc, "duplicate") || strings.Contains(desc, "wrong-count"))) {
 					// An encoder driven with an invalid stream (no validator in front) is outside its contract:
 					// the operation only serves to disturb the instance's state and is not compared.
 					c.Inc("dontcare.invalid_stream_into_bare_encoder")
